@@ -240,7 +240,106 @@ def task_wide(t):
     return rep
 
 
-TASKS = dict(bdd=task_bdd, autoref=task_autoref, wide=task_wide)
+def task_reorder(t):
+    """Quantification while DYNAMIC REORDERING fires inside the call: the request is forced at
+    the k-th node creation and the reordering it triggers is made to END IN a chosen order
+    (every permutation of three variables: the heuristic is free to pick any)."""
+    import itertools
+    import dd.bdd as _bdd
+    from .c09 import Seam
+    _, k, si, ns, focus = t
+    rep = run.Report()
+    rec = sweep.Rec(rep)
+    names = names_for(3, env.SEED)
+    U = Universe(names)
+    m = S.new_bdd({v: i for i, v in enumerate(names)})
+    refs, b = sweep.build_all(m, U)
+    m.configure(reordering=True)
+    fs = sorted(refs)
+    perms = [p for p in itertools.permutations(names)]
+    qsets = [q for q in sweep.subsets(names) if q]
+
+    class PickOrder(Seam):
+        target = None
+
+        def _reorder(self, bdd, *a, **kw):
+            if self.active and not a and not kw and self.target is not None:
+                self.reorders += 1
+                return self.orig_reorder(bdd, dict(self.target))
+            return Seam._reorder(self, bdd, *a, **kw)
+    seam = PickOrder()
+    if not seam.available():
+        rep.note('dd.bdd._request_reordering is absent: reordering cannot be forced')
+        return rep
+    forms = ('quantify', 'exist', 'forall', 'apply-E', 'apply-A')
+    mine = sweep.shard(fs, ns)[si]
+    with seam:
+        for fu in mine:
+            if focus is not None and fu != focus:
+                continue
+            u = refs[fu]
+            for pi, perm in enumerate(perms):
+                seam.target = {v: i for i, v in enumerate(perm)}
+                for Q in qsets:
+                    form = forms[(fu + pi + len(Q)) % len(forms)]
+                    fa = form in ('forall', 'apply-A') or (form == 'quantify' and (fu + pi) % 2)
+                    case = dict(task=t[:-1] + (fu,), u=U.fmt(fu), Q=list(Q), form=form,
+                                forall=bool(fa), position=k, order_after=list(perm))
+                    try:
+                        cube = None
+                        if form.startswith('apply'):
+                            cm = U.full
+                            for x in Q:
+                                cm &= U.var(x)
+                            cube = b(cm)
+                            m.incref(cube)
+                        if getattr(m, '_last_len', None) is None:
+                            m.configure(reordering=True)
+                        seam.arm((k,))
+                        try:
+                            if form == 'quantify':
+                                r = m.quantify(u, set(Q), bool(fa))
+                            elif form == 'exist':
+                                r = m.exist(list(Q), u)
+                            elif form == 'forall':
+                                r = m.forall(tuple(Q), u)
+                            elif form == 'apply-E':
+                                r = m.apply('\\E', cube, u)
+                            else:
+                                r = m.apply('forall', cube, u)
+                        finally:
+                            seam.disarm()
+                        fired = seam.reorders
+                        if cube is not None:
+                            m.decref(cube)
+                        rep.add('evaluations')
+                        if fired:
+                            rep.add('reordered_inside')
+                            if set(Q) & U.support(fu):
+                                rep.add('nontrivial')
+                        b.reset()
+                        if O.Den(m, U)(r) != U.quantify(fu, Q, bool(fa)):
+                            rec('reorder:' + form, 'quantification gives another function when '
+                                'dynamic reordering fires inside the call', case)
+                    except Violation as e:
+                        rec('reorder-broken:' + e.what, e.what, case)
+                    except Exception as e:  # noqa
+                        rec('reorder-exception:' + type(e).__name__, 'raised %r' % (e,), case)
+    try:
+        den = O.Den(m, U)
+        for f, r in refs.items():
+            if den(r) != f:
+                raise Violation('a held operand changed denotation')
+        O.check(m, None, U)
+    except Violation as e:
+        rec('reorder-after:' + e.what, e.what, dict(task=t), **e.detail)
+    if si == 0 and focus is None:
+        rep.sample(dict(kind='quantification with reordering forced inside', position=k,
+                        final_orders='every permutation of 3 variables'))
+    return rep
+
+
+TASKS = dict(bdd=task_bdd, autoref=task_autoref, wide=task_wide, reorder=task_reorder)
 
 
 def dispatch(t):
@@ -250,6 +349,7 @@ def dispatch(t):
 def plan(tier):
     ts = [('wide', 10, si, 16, None) for si in range(16)]
     ts += [('wide', sweep.XWIDE, si, 16, None) for si in range(16)]
+    ts += [('reorder', k, si, 8, None) for k in (1, 2) for si in range(8)]
     if tier == 'quick':
         n = 3
         for oi in range(6):
